@@ -43,6 +43,7 @@ struct Msg {
     bool floating = false;        // optional and without a known position (caused by a transition that could not be observed when it happened)
     bool late = false;            // accepted while the loop was already stopping
     bool pill = false;
+    bool doomed = false;          // pending for a module that is PAUSED while the loop stops: discarded unless the module is resumed in time
     int epoch = 0;                // loop run during which it was accepted
     struct Via { std::string sub_topic; long token; int prio; bool oneshot; long sub_serial; };
     std::vector<Via> via;         // subscriptions of the recipient that matched when the message was accepted (empty: direct / broadcast)
@@ -93,6 +94,8 @@ struct Inst {
     long batch_size = 0;          // as configured through the setter (0: none)
     long batch_timeout_ms = 0;
     bool batch_changed = false;   // settings changed since the accumulation started
+    bool batch_ever = false;      // batching was configured at some point of this registration (events may sit accumulated)
+    bool tmr_maybe_retired(const TmrSrc &t) const { return t.oneshot && (t.prio == PRIO_LOW || (t.prio == PRIO_NORM && batch_ever)); } // expiry read by the library, event still accumulated
     double batch_timer_set_at = 0;
     int expect_start = 0;         // 1: the next observation must be this module's start callback
     int expect_stop = 0;          // 1: stop callback allowed next, 2: required next
@@ -112,6 +115,8 @@ struct Inst {
     int handler_invocations = 0;
     int ps_delivered = 0, ps_invocations = 0; std::set<const void *> ps_senders; // C08 classification
     bool c17_deep = false, c17_changed = false;
+    bool resumed_while_stopping = false;
+    long ticks_seen = 0;          // tick notifications received since the tick was (re)armed
     bool deny_ctx() const;
 };
 
